@@ -272,6 +272,10 @@ type mwUpstream struct {
 	signReq []mwSignReq
 	added   []agent.AddedKey
 	nconns  []net.Conn // natively: the server side of the connections the shim opened
+	// a second client of the underlying agent (which the shim lock does not
+	// cover) acts just before the call with this index is served
+	intrudeAt int
+	intrude   func()
 }
 
 // dropNative: natively a transport failure is a dropped connection (the
@@ -296,6 +300,11 @@ func (u *mwUpstream) fault(op string) bool {
 	vAccess("acqW", "client.mu")
 	vAccess("wr", "conn")
 	vAccess("relW", "client.mu")
+	if u.intrude != nil && u.calls == u.intrudeAt {
+		f := u.intrude
+		u.intrude = nil
+		f()
+	}
 	u.calls++
 	u.log = append(u.log, op)
 	if u.failAt >= 0 && u.calls-1 == u.failAt {
